@@ -329,6 +329,21 @@ def cases(draw):
     n = draw(st.sampled_from([0, 1, 1, 1, 2, 2, 2]))
     injs = []
     cur = model
+    if draw(st.integers(0, 9)) == 0:
+        # a pair that belongs together: an axis gets a unit that is no SI unit, and a tag that addresses this axis
+        # gets the very same string (identical units, but nothing one could convert)
+        firsts = []
+        for c in R.enumerate_injections(model):
+            if c["kind"] == "axis-unit" and c.get("unit") in R.NON_SI_AXIS:
+                m1 = R.apply_injection(model, c)
+                seconds = [c2 for c2 in R.enumerate_injections(m1)
+                           if c2["kind"] == "units" and c["unit"] in c2["units"] and c2["blk"] == c["blk"]]
+                if seconds:
+                    firsts.append((c, m1, seconds))
+        if firsts:
+            c, m1, seconds = draw(st.sampled_from(firsts))
+            return {"file": model, "inj": [c, draw(st.sampled_from(seconds))], "cli": draw(st.booleans()),
+                    "staged": draw(st.booleans()), "paired": "same-non-si-unit-on-axis-and-tag"}
     for i in range(n):
         near = None
         if i == 1 and draw(st.booleans()):
@@ -779,6 +794,8 @@ def run_case(case, ctx):
                "validated-before-each-injection" if case.get("staged") and injs else "validated-once",
                "blocks:%d" % len(base["blocks"])]
     classes += ["inj:" + i["kind"] for i in injs]
+    if case.get("paired"):
+        classes.append("paired:" + case["paired"])
     classes += ["desc:" + k for k in sorted(kinds_desc)]
     classes += ["rank:%d" % r for r in sorted(ranks)]
     classes += ["entity:" + k for k in sorted(ekinds)]
